@@ -20,6 +20,7 @@ type Clause struct {
 	Site string // for call-site asserts: callee#k
 	Args []string
 	Mode string // "", "int", "bv": only visible in that mode
+	Local bool  // checked in the function itself, not exported to callers (may mention locals)
 	File string
 	Line int
 }
@@ -28,6 +29,7 @@ type FuncSpec struct {
 	Name      string
 	Results   []string
 	Params    []string
+	Model     string
 	Optional  bool
 	Mode      string // int | bv
 	Level     string // full | thin
@@ -137,6 +139,11 @@ func (ss *SpecSet) parseFile(path string) error {
 		if i := strings.IndexAny(t, " \t"); i >= 0 {
 			kw, rest = t[:i], strings.TrimSpace(t[i+1:])
 		}
+		clocal := false
+		if kw == "local" && strings.HasPrefix(rest, "ensures ") {
+			clocal = true
+			kw, rest = "ensures", strings.TrimSpace(rest[8:])
+		}
 		cmode := ""
 		if (kw == "int" || kw == "bv") && (strings.HasPrefix(rest, "requires ") || strings.HasPrefix(rest, "ensures ") || strings.HasPrefix(rest, "loop ") || strings.HasPrefix(rest, "assert ")) {
 			cmode = kw
@@ -155,7 +162,7 @@ func (ss *SpecSet) parseFile(path string) error {
 			if tg == nil && cur != nil {
 				tg = cur.Tags
 			}
-			return &Clause{Kind: kind, Expr: e, Text: text, Tags: tg, File: path, Line: l.no, Mode: cmode}, nil
+			return &Clause{Kind: kind, Expr: e, Text: text, Tags: tg, File: path, Line: l.no, Mode: cmode, Local: clocal}, nil
 		}
 		switch kw {
 		case "func", "lemma":
@@ -210,6 +217,9 @@ func (ss *SpecSet) parseFile(path string) error {
 			}
 		case "trusted":
 			cur.Trusted = true
+		case "model":
+			cur.Model = rest
+			cur.Trusted = true
 		case "optional":
 			cur.Optional = true
 		case "maypanic":
@@ -234,7 +244,7 @@ func (ss *SpecSet) parseFile(path string) error {
 		case "modifies":
 			cur.HasMod = true
 			if rest != "" && rest != "nothing" {
-				for _, x := range strings.Split(rest, ",") {
+				for _, x := range splitTop(rest) {
 					cur.Modifies = append(cur.Modifies, strings.TrimSpace(x))
 				}
 			}
@@ -742,4 +752,24 @@ func (p *sparser) primary() (*SExpr, error) {
 		}
 	}
 	return nil, fmt.Errorf("unexpected token %q", t.s)
+}
+
+// splitTop splits on commas that are not nested in brackets or parentheses.
+func splitTop(s string) []string {
+	var out []string
+	depth, start := 0, 0
+	for i, c := range s {
+		switch c {
+		case '(', '[':
+			depth++
+		case ')', ']':
+			depth--
+		case ',':
+			if depth == 0 {
+				out = append(out, s[start:i])
+				start = i + 1
+			}
+		}
+	}
+	return append(out, s[start:])
 }
